@@ -82,3 +82,7 @@ def check(ck):
         # converts the value afterwards, so a tolerated `Int` variable on an `ID` argument would deliver 5 where the literal delivers "5"
         from .c06 import _variable_usage_tables
         _variable_usage_tables(ck, repo)
+        # ... and the literal coercers accept exactly what the variable coercers accept, items of list literals included (defaults
+        # are literals the validation rule never looks at): the literal-side tables of C05.R3
+        from . import c05
+        c05._siblings(ck, repo)
